@@ -48,6 +48,16 @@ impl Collect for Rec {
     fn current_span(&self) -> span::Current { span::Current::unknown() }
 }
 
+/// scenarios starting with `dropemit <cs>`: a plain collector emits an event from callsite cs while it is being dropped (a
+/// collector that logs its own shutdown)
+static DROP_EMITS: std::sync::atomic::AtomicUsize = std::sync::atomic::AtomicUsize::new(usize::MAX);
+impl Drop for Rec {
+    fn drop(&mut self) {
+        let cs = DROP_EMITS.load(std::sync::atomic::Ordering::SeqCst);
+        if cs != usize::MAX { pool::hit(cs); }
+    }
+}
+
 /// `newr`: the answers come from a layer behind a real `reload::Subscriber`; the collector underneath accepts everything
 struct Base { id: usize }
 struct SpecLayer(Vec<u8>, Option<LevelFilter>);
@@ -124,7 +134,11 @@ fn parse_spec(spec: &str) -> (Vec<u8>, Option<LevelFilter>) {
     (s.as_bytes().to_vec(), hint)
 }
 
+/// scenarios without `mut`: a plain collector's answers never change, so an emission it accepts must be delivered (the
+/// lost-delivery oracle of the `hit` op applies to it as well)
+static WATCH_PLAIN: std::sync::atomic::AtomicBool = std::sync::atomic::AtomicBool::new(false);
 fn mk(id: usize, spec: &str) -> Rec {
+    if WATCH_PLAIN.load(std::sync::atomic::Ordering::SeqCst) { push_value(id, parse_spec(spec).0); }
     let cell: Cell = Arc::new(std::sync::RwLock::new(parse_spec(spec)));
     CELLS.lock().unwrap().get_or_insert_with(HashMap::new).insert(id, cell.clone());
     Rec { id, cell }
@@ -256,8 +270,16 @@ fn run_thread(t: usize, prog: Vec<Vec<String>>, dflt: Option<Dispatch>, dflt_id:
             }
         }
     };
-    let r = std::panic::catch_unwind(std::panic::AssertUnwindSafe(|| match &dflt {
-        Some(d) => tracing_core::dispatch::with_default(d, body),
+    let mut dflt = dflt;
+    let r = std::panic::catch_unwind(std::panic::AssertUnwindSafe(|| match dflt.take() {
+        Some(d) => {
+            // the scope guard holds the thread's only reference to its default (as `set_default(&Dispatch::new(..))` does in
+            // programs): if every other handle is gone when the scope ends, the collector is dropped BY the guard's drop
+            let g = tracing_core::dispatch::set_default(&d);
+            drop(d);
+            body();
+            drop(g);
+        }
         None => body(),
     }));
     let mut g = SCHED.lock().unwrap();
@@ -281,10 +303,12 @@ fn main() {
     FREE.store(free, std::sync::atomic::Ordering::SeqCst);
     let schedule: Vec<usize> = if free { Vec::new() } else { toks.get(sep + 1).map(|s| s.bytes().map(|b| (b - b'0') as usize).collect()).unwrap_or_default() };
     let parts: Vec<&[&str]> = toks[..sep].split(|t| *t == "|").collect();
+    WATCH_PLAIN.store(!toks[..sep].iter().any(|t| *t == "mut"), std::sync::atomic::Ordering::SeqCst);
     let handles: Handles = Arc::new(Mutex::new(HashMap::new()));
     // pre-section (sequential, uncontrolled)
     assert_eq!(parts[0][0], "pre:");
     for op in parse_ops(&parts[0][1..]) {
+        if op[0] == "dropemit" { DROP_EMITS.store(op[1].parse().unwrap(), std::sync::atomic::Ordering::SeqCst); continue; }
         let c: usize = op[1].parse().unwrap();
         let d = if op[0] == "newr" { mk_reloadable(c, &op[2]) } else { Dispatch::new(mk(c, &op[2])) };
         handles.lock().unwrap().insert(c, d);
